@@ -287,6 +287,13 @@ static int __check_key_bits(jwt_t *jwt)
 {
 	int key_bits = jwt->key->bits;
 
+	/* The providers check RSA vs EC vs OKP themselves, but an octet key
+	 * is not something they can be handed at all. */
+	if (jwt->key->kty == JWK_KEY_TYPE_OCT) {
+		jwt_write_error(jwt, "Key type does not match algorithm");
+		return 1;
+	}
+
 	switch (jwt->alg) {
 	case JWT_ALG_RS256:
 	case JWT_ALG_RS384:
@@ -407,6 +414,10 @@ int jwt_sign(jwt_t *jwt, char **out, unsigned int *len, const char *str,
 	case JWT_ALG_HS256:
 	case JWT_ALG_HS384:
 	case JWT_ALG_HS512:
+		if (jwt->key->kty != JWK_KEY_TYPE_OCT) {
+			jwt_write_error(jwt, "Key type does not match algorithm");
+			return 1;
+		}
 		if (__check_hmac(jwt))
 			return 1;
 		if (sign_sha_hmac(jwt, out, len, str, str_len)) {
@@ -465,6 +476,10 @@ static int _verify_sha_hmac(jwt_t *jwt, const char *head,
 	char_auto *buf = NULL;
 	unsigned int res_len;
 	int ret;
+
+	/* HMAC needs an octet key, anything else has no usable key material */
+	if (jwt->key->kty != JWK_KEY_TYPE_OCT)
+		return 1;
 
 	ret = jwt_sign(jwt, &res, &res_len, head, head_len);
 	if (ret)
